@@ -5,6 +5,7 @@
 package main
 
 import (
+	"crypto/sha256"
 	"encoding/hex"
 	"flag"
 	"fmt"
@@ -30,26 +31,31 @@ type Step struct {
 	Class    string   `json:"class"`
 	Fin      uint32   `json:"fin"`
 	Chain    []string `json:"chain"`
+	Bodies   []string `json:"bodies"` // per height: digest of the FULL block as read from the database (no cache), or "ERR: …"
 	Events   []exh.Ev `json:"events"`
 	TempKeys int      `json:"temp"`
 }
 
 type Hist struct {
-	K       string `json:"k"`
-	N       int    `json:"n"`
-	Genesis string `json:"genesis"`
-	Steps   []Step `json:"steps"`
+	K       string            `json:"k"`
+	N       int               `json:"n"`
+	Genesis string            `json:"genesis"`
+	Steps   []Step            `json:"steps"`
+	Digests map[string]string `json:"digests"` // block ID -> digest of the full encoded block, recorded when the block was built
 	// two-node histories only
-	SyncTip  bool `json:"sync_reached_peer_tip,omitempty"`
-	SyncHang bool `json:"sync_hang,omitempty"`
+	SyncKind string `json:"sync_kind,omitempty"`
+	SyncRes  string `json:"sync_result,omitempty"`
+	SyncTip  bool   `json:"sync_reached_peer_tip,omitempty"`
+	SyncHang bool   `json:"sync_hang,omitempty"`
 }
 
 type drv struct {
 	n       *exh.Node
 	r       *hx.Rng
 	h       *Hist
-	scripts map[string]*exh.Script // ABI answers per block ID: re-applying a block reproduces its events
-	sticky  *exh.Validator         // current run: several consecutive blocks by the same validator (finality jumps)
+	scripts map[string]*exh.Script             // ABI answers per block ID: re-applying a block reproduces its events
+	txAt    map[uint32]*blockchain.Transaction // first transaction of the block applied at a height (dup-tx scenario)
+	sticky  *exh.Validator                     // current run: several consecutive blocks by the same validator (finality jumps)
 	run     int
 }
 
@@ -70,10 +76,33 @@ func (d *drv) observe(s *Step) {
 	if hd := n.HeaderAt(tip + 1); hd != nil {
 		s.Chain = append(s.Chain, hex.EncodeToString(hd.ID))
 	}
+	// full blocks (header, transactions, assets) straight from the database: a fresh DataAccess has an empty cache
+	raw := blockchain.NewDataAccess(n.DB, 1, n.Opt.KeepEvents)
+	s.Bodies = []string{}
+	for h := uint32(0); h <= tip; h++ {
+		blk, err := raw.GetBlockByHeight(h)
+		if err != nil {
+			s.Bodies = append(s.Bodies, "ERR: "+err.Error())
+			continue
+		}
+		s.Bodies = append(s.Bodies, blockDigest(blk))
+	}
 	s.Events = n.DrainEvents()
 	tb, _ := n.Chain.DataAccess().GetTempBlocks()
 	s.TempKeys = len(tb)
 	d.h.Steps = append(d.h.Steps, *s)
+}
+
+func blockDigest(b *blockchain.Block) string {
+	sum := sha256.Sum256(b.Encode())
+	return hex.EncodeToString(sum[:8])
+}
+
+func (d *drv) remember(b *blockchain.Block) {
+	if d.h.Digests == nil {
+		d.h.Digests = map[string]string{}
+	}
+	d.h.Digests[hex.EncodeToString(b.Header.ID)] = blockDigest(b)
 }
 
 func (d *drv) postPrecommit(b *blockchain.Block) uint32 {
@@ -123,6 +152,10 @@ func (d *drv) applyValid(what string) {
 	}
 	n.ABI.S = d.script(n.Tip().Header.Height + 1)
 	b := n.NextValid(bo)
+	d.remember(b)
+	if len(b.Transactions) > 0 {
+		d.txAt[b.Header.Height] = b.Transactions[0]
+	}
 	d.scripts[hex.EncodeToString(b.Header.ID)] = n.ABI.S
 	s := &Step{Op: "apply", ID: hex.EncodeToString(b.Header.ID), OK: true, P: d.postPrecommit(b), What: what}
 	var r exh.Result
@@ -195,6 +228,37 @@ func (d *drv) deleteFinalized() {
 	d.observe(s)
 }
 
+// dupTx: a block above the finalized height repeats a transaction of a FINALIZED block that is still on the chain (the
+// engine accepts it: nothing checks that a transaction ID is new), then that block is deleted again (tie-break, sync, …).
+func (d *drv) dupTx() bool {
+	n := d.n
+	fin, _ := n.Finalized()
+	var tx *blockchain.Transaction
+	for h := uint32(1); h <= fin; h++ {
+		if t, ok := d.txAt[h]; ok {
+			if hd := n.HeaderAt(h); hd != nil {
+				if blk, err := n.Chain.DataAccess().GetBlockByHeight(h); err == nil && len(blk.Transactions) > 0 && string(blk.Transactions[0].ID) == string(t.ID) {
+					tx = t
+				}
+			}
+		}
+	}
+	if tx == nil {
+		return false
+	}
+	n.ABI.S = d.script(n.Tip().Header.Height + 1)
+	b := n.NextValid(exh.Build{Txs: []*blockchain.Transaction{tx}})
+	d.remember(b)
+	d.scripts[hex.EncodeToString(b.Header.ID)] = n.ABI.S
+	s := &Step{Op: "apply", ID: hex.EncodeToString(b.Header.ID), OK: true, P: d.postPrecommit(b), What: "dup-tx: block above finality repeating a transaction of a finalized block"}
+	s.Class = exh.ErrClass(n.ProcessValidated(b, false))
+	d.observe(s)
+	if s.Class != "ok" {
+		return false
+	}
+	return d.deleteTip(false, "dup-tx: delete the block that repeated a finalized block's transaction")
+}
+
 // fork: delete k tips (saved to temp as fast sync does), grow a competing branch on other slots; then either keep it and
 // clear the temp table (successful sync) or fail: delete the branch (without temp, as restoreBlocks does) and re-apply what
 // the temp table holds, lowest height first, with removeTemp.
@@ -248,20 +312,32 @@ func (d *drv) fork() {
 // callback — all inside process, i.e. with the Executer's syncing flag set.  Every block step of the sync is observed:
 // the ABI double's InitStateMachine hook fires at the start of every processValidated / deleteBlock, where the state
 // left by the previous step is recorded.
-func syncViaProcess(r *hx.Rng, hi int) *Hist {
+// kind: "fast" (successful fast sync), "poison" (the node rejects one of the downloaded blocks: the REAL restoreBlocks runs),
+// "deep" (the node's own fork is long enough to have finalized past the fork point: the common block is below the finalized
+// height), "block" (the peer is more than two rounds ahead: real block sync).
+func syncViaProcess(r *hx.Rng, hi int, kind string) *Hist {
 	nv := 2 + r.Intn(3)
-	a, err := exh.New(exh.Options{N: nv, Listen: true})
+	var weights []uint64
+	if kind == "deep" {
+		// one heavy validator: finality follows the tip closely, so a fork as long as fast sync tolerates has finalized blocks
+		nv, weights = 4, []uint64{1, 1, 1, 9}
+	}
+	var pre uint64
+	if kind == "deep" {
+		pre = 5
+	}
+	a, err := exh.New(exh.Options{N: nv, Listen: true, Weights: weights, PreCommit: pre, Certificate: pre})
 	if err != nil {
 		panic(err)
 	}
-	b, err := exh.New(exh.Options{N: nv, Listen: true, GenesisTime: a.Opt.GenesisTime})
+	b, err := exh.New(exh.Options{N: nv, Listen: true, GenesisTime: a.Opt.GenesisTime, Weights: weights, PreCommit: pre, Certificate: pre})
 	if err != nil {
 		panic(err)
 	}
 	defer a.DB.Close()
 	defer b.DB.Close()
-	h := &Hist{K: "hist", N: nv, Genesis: hex.EncodeToString(a.Genesis.Header.ID)}
-	d := &drv{n: a, r: r, h: h, scripts: map[string]*exh.Script{}}
+	h := &Hist{K: "hist", N: nv, Genesis: hex.EncodeToString(a.Genesis.Header.ID), SyncKind: kind}
+	d := &drv{n: a, r: r, h: h, scripts: map[string]*exh.Script{}, txAt: map[uint32]*blockchain.Transaction{}}
 	a.DrainEvents()
 	clone := func(x *blockchain.Block) *blockchain.Block {
 		c, err := blockchain.NewBlock(x.Encode())
@@ -284,21 +360,50 @@ func syncViaProcess(r *hx.Rng, hi int) *Hist {
 		}
 	}
 	own := 1 + r.Intn(2)
+	if kind == "deep" {
+		own = 2*nv - 2 // the fork point is the oldest height fast sync still offers as common block
+	}
 	for i := 0; i < own; i++ {
-		blk := a.NextValid(exh.Build{})
+		bo := exh.Build{}
+		if kind == "deep" {
+			bo.By = a.Vals[3]
+		}
+		blk := a.NextValid(bo)
+		d.remember(blk)
 		s := &Step{Op: "apply", ID: hex.EncodeToString(blk.Header.ID), OK: true, P: d.postPrecommit(blk), What: "own fork"}
 		s.Class = exh.ErrClass(a.ProcessValidated(blk, false))
 		d.observe(s)
 	}
 	peerLen := own + 1 + r.Intn(nv)
+	switch kind {
+	case "block":
+		peerLen = own + 2*nv + 2 + r.Intn(3)
+	case "poison":
+		peerLen = own + 2 + r.Intn(nv-1)
+	case "deep":
+		peerLen = own + 2
+	}
+	var poison []byte
 	for i := 0; i < peerLen; i++ {
 		skip := 0
 		if i == 0 {
 			skip = nv // same generator as A's first fork block, a later slot: a different block at the same height
 		}
-		if rb := b.ProcessValidated(b.NextValid(exh.Build{SkipSlots: skip}), false); !rb.OK() {
+		pbo := exh.Build{SkipSlots: skip}
+		if kind == "deep" {
+			pbo.By = b.Vals[3]
+		}
+		pb := b.NextValid(pbo)
+		if rb := b.ProcessValidated(pb, false); !rb.OK() {
 			panic(fmt.Sprintf("peer fork block rejected: %v", rb.Err))
 		}
+		d.remember(pb)
+		if kind == "poison" && i == 1+r.Intn(peerLen-1) && poison == nil {
+			poison = pb.Header.ID
+		}
+	}
+	if kind == "poison" && poison == nil {
+		poison = b.Tip().Header.ID
 	}
 	if err := a.StartNet(); err != nil {
 		panic(err)
@@ -345,6 +450,14 @@ func syncViaProcess(r *hx.Rng, hi int) *Hist {
 		blk := &blockchain.Block{Header: hd}
 		pending = &Step{Op: "apply", ID: hex.EncodeToString(hd.ID), P: d.postPrecommit(blk), OKImpl: true,
 			What: "sync via Executer.process: apply downloaded block (syncing flag set)"}
+		a.ABI.S = nil
+		if poison != nil && hex.EncodeToString(poison) == hex.EncodeToString(hd.ID) {
+			// the node's application refuses this one block of the peer's chain: the sync fails half way
+			a.ABI.S = &exh.Script{FailAfterTxs: true}
+			pending.What = "sync via Executer.process: downloaded block REJECTED by the node (restore follows)"
+		} else if _, mine := d.h.Digests[pending.ID]; mine && a.HeaderAt(hd.Height) == nil && poison != nil && a.Tip().Header.Height < hd.Height {
+			pending.What = "sync via Executer.process: apply / restore block"
+		}
 	}
 	done := make(chan exh.Result, 1)
 	go func() { done <- a.ProcessFrom(clone(b.Tip()), b.Conn.Peer.ID()) }()
@@ -352,6 +465,7 @@ func syncViaProcess(r *hx.Rng, hi int) *Hist {
 	case res := <-done:
 		a.ABI.OnInit = nil
 		finish()
+		h.SyncRes = exh.ErrClass(res)
 		s := &Step{Op: "cleartemp", OK: true, What: "sync via Executer.process returned: " + exh.ErrClass(res)}
 		d.observe(s)
 		h.SyncTip = hex.EncodeToString(a.Tip().Header.ID) == hex.EncodeToString(b.Tip().Header.ID)
@@ -386,8 +500,13 @@ func main() {
 			os.Exit(3)
 		}
 	}()
+	kinds := []string{"fast", "poison", "deep", "block"}
 	for si := 0; si < *syncs; si++ {
-		o.Put(syncViaProcess(r, si))
+		hh := syncViaProcess(r, si, kinds[si%len(kinds)])
+		if hh.SyncHang { // loaded machine / libp2p timeout: one retry, then reported as inconclusive by the check
+			hh = syncViaProcess(r, si, kinds[si%len(kinds)])
+		}
+		o.Put(hh)
 	}
 	for hi := 0; hi < *hists; hi++ {
 		opt := exh.Options{N: 1 + r.Intn(5)}
@@ -405,7 +524,7 @@ func main() {
 			panic(err)
 		}
 		h := &Hist{K: "hist", N: opt.N, Genesis: hex.EncodeToString(n.Genesis.Header.ID)}
-		d := &drv{n: n, r: r, h: h, scripts: map[string]*exh.Script{}}
+		d := &drv{n: n, r: r, h: h, scripts: map[string]*exh.Script{}, txAt: map[uint32]*blockchain.Transaction{}}
 		n.DrainEvents()
 		for si := 0; si < *steps; si++ {
 			switch c := r.Intn(100); {
@@ -441,6 +560,8 @@ func main() {
 				d.observe(s)
 			}
 		}
+		// last: the dup-tx scenario (C05's known finding seen from C04: the finalized block's body becomes unretrievable)
+		d.dupTx()
 		o.Put(h)
 	}
 }
